@@ -17,4 +17,9 @@ open TxVerif
 #print axioms commit_keeps_live_data
 #print axioms commit_keeps_data_pages
 #print axioms commit_lists_prefix
-#print axioms commit_keeps_live_meta_partial
+#print axioms commit_keeps_live_meta
+#print axioms commit_ends_bounded
+#print axioms absorb_meta_below_end
+#print axioms absorb_meta_below_end'
+#print axioms absorb_end_fresh
+#print axioms absorb_alloc_fresh
